@@ -290,8 +290,11 @@ def match_known(pid, key, known):
 
 # ------------------------------------------------------------------ main entry
 def write_evidence(pid, ev):
-    os.makedirs(os.path.join(VERIF, 'evidence'), exist_ok=True)
-    p = os.path.join(VERIF, 'evidence', pid + '.json')
+    # runs against deliberately broken scratch trees (tools/tryclone.sh, tryseed.sh) divert their evidence so that /verif/evidence
+    # always describes the last run on /repo's own tree
+    edir = os.environ.get('VERIF_EVIDENCE_DIR') or os.path.join(VERIF, 'evidence')
+    os.makedirs(edir, exist_ok=True)
+    p = os.path.join(edir, pid + '.json')
     with open(p + '.tmp', 'w') as f: json.dump(ev, f, indent=1)
     os.replace(p + '.tmp', p)
 
